@@ -3,9 +3,12 @@
 (* DiffXWriter (and of DiffXReader over the bytes it produced) are        *)
 (* replayed against the Writer specification, one TLC state per event.    *)
 (*                                                                        *)
-(* A trace is [id, cmap, ev]; events:                                     *)
+(* A trace is [id, cmap, chk, ev]; chk = [order, bytes, read] selects the   *)
+(* clauses of the property being decided (C09 / C02,C04 / C01); events:   *)
 (*   init : constructor.  [k, enc, appended]                              *)
-(*   call : one writer call [k, c, accepted, appended, appendonly]        *)
+(*   call : one writer call [k, c, accepted, appended, appendonly, twin]  *)
+(*          twin = bytes the same call appended in a second run of the    *)
+(*          real writer from which every rejected call was left out       *)
 (*   read : the real reader over the final stream [k, recs, end, line,    *)
 (*          selfcheck]                                                    *)
 (* Every clause that can fail has a name; the verdict line carries it.    *)
@@ -33,15 +36,16 @@ RecField(a, b) ==
 Check(tr, e) ==
   CASE e.k = "init" ->
          LET s == WInit(e.enc) IN
-         IF e.appended # s.out THEN [ok |-> FALSE, why |-> "init-bytes", st |-> s]
+         IF tr.chk.bytes /\ e.appended # s.out THEN [ok |-> FALSE, why |-> "init-bytes", st |-> s]
          ELSE [ok |-> TRUE, why |-> "", st |-> s]
     [] e.k = "call" ->
          LET r == WStep(st, e.c) IN
          IF e.accepted # r.accepted THEN
             [ok |-> FALSE, why |-> (IF r.accepted THEN "rejected-but-spec-accepts" ELSE "accepted-but-spec-rejects"), st |-> r.st]
-         ELSE IF ~e.appendonly THEN [ok |-> FALSE, why |-> "not-append-only", st |-> r.st]
-         ELSE IF ~r.accepted /\ e.appended # <<>> THEN [ok |-> FALSE, why |-> "rejected-call-wrote-bytes", st |-> r.st]
-         ELSE IF e.appended # r.delta THEN [ok |-> FALSE, why |-> "bytes-differ", st |-> r.st]
+         ELSE IF tr.chk.order /\ ~e.appendonly THEN [ok |-> FALSE, why |-> "not-append-only", st |-> r.st]
+         ELSE IF tr.chk.order /\ ~r.accepted /\ e.appended # <<>> THEN [ok |-> FALSE, why |-> "rejected-call-wrote-bytes", st |-> r.st]
+         ELSE IF tr.chk.order /\ r.accepted /\ e.appended # e.twin THEN [ok |-> FALSE, why |-> "continues-differently-after-rejected-call", st |-> r.st]
+         ELSE IF tr.chk.bytes /\ e.appended # r.delta THEN [ok |-> FALSE, why |-> "bytes-differ", st |-> r.st]
          ELSE [ok |-> TRUE, why |-> "", st |-> r.st]
     [] e.k = "read" ->
          LET d == FirstDiff(st.recs, e.recs, 1)
